@@ -15,3 +15,6 @@ Definition cy_max {F} (A : Arith F) (a b : F) : F := if fltb A a b then b else a
 Definition get2 {M} (d : M) (a : list (list M)) (i j : nat) : M := nth j (nth i a []) d.
 Definition set2 {M} (a : list (list M)) (i j : nat) (v : M) : list (list M) :=
   match nth_error a i with Some row => upd a i (upd row j v) | None => a end.
+
+(* Python's y**2 on floats as the hand models write it *)
+Definition py_sq {F} (A : Arith F) (y : F) : F := fmul A y y.
